@@ -861,7 +861,10 @@ def run(ctx):
                 "with interrupted reads x n<=5, then random.  net: every split point of a stream with all 7 "
                 "message types; 17 segment patterns x 9 partial-writev patterns; random recordings (tids incl. "
                 "negative, 0..300000-byte buffers, metadata via send_trace_metadata or via the record.c tail); "
-                "2-3 (thorough: up to 8) clients interleaved at message granularity; malformed streams.  "
+                "2-3 (thorough: up to 8) clients interleaved at message granularity; 3-5 clients connected at once with "
+                "repeated names (X,Y,X / X,X,X / X,Y,X.old / X,Y,Y,X / prefixes …) x 4 connect/finish orders, then "
+                "random name pools; malformed streams.  The monitor is the expected tree computed from the "
+                "property (own directory per client, rotation only after its client finished).  "
                 "distinct = distinct model inputs",
         "unit_cases": len(ulines), "net_cases": len(cases), "same_name_cases": len(same),
         "local_cases": len(ll), "many_writer_runs": len(mw_lines),
